@@ -98,6 +98,58 @@ fn guard_live_heap_respects_pooled() {
 // tried with the same construction and dropped: CBMC runs out of memory on the Rc<RefCell<Space>> drop glue
 // that every upgrade() of a live Weak<Space> drags in.)
 
+// ---- pooling: a reclaimed slot enters the free list exactly once and comes back reset ----------------
+fn live_box(pooled: bool, rc: usize, payload: u32) -> NonNull<GcBox<Obj>> {
+    let boxed = Box::new(GcBox::new(kani::any(), Obj { v: payload }));
+    boxed.pooled.set(pooled);
+    boxed.ref_count.set(rc);
+    match NonNull::new(Box::into_raw(boxed)) {
+        Some(p) => p,
+        None => NonNull::dangling(),
+    }
+}
+
+// Space::pool_object: idempotent - a slot is never entered into the free list twice (a duplicate entry would
+// hand the same slot to two allocations), the allocation counter drops exactly once.
+#[cfg_attr(kani, kani::proof)]
+#[cfg_attr(kani, kani::unwind(4))]
+fn space_pool_object_once() {
+    let mut space: Space<Obj> = Space::new();
+    let pooled: bool = kani::any();
+    let ptr = live_box(pooled, kani::any(), kani::any());
+    let n0 = space.net_allocs;
+    space.pool_object(0, ptr);
+    space.pool_object(0, ptr);
+    let expect = if pooled { 0 } else { 1 };
+    assert!(space.free_list.len() == expect, "OBL gc_handles/Space::pool_object/ensures#slot_enters_free_list_at_most_once");
+    assert!(unsafe { ptr.as_ref().pooled.get() }, "OBL gc_handles/Space::pool_object/ensures#slot_marked_pooled");
+    assert!(space.net_allocs == n0 - expect as isize, "OBL gc_handles/Space::pool_object/ensures#allocation_counter_drops_once");
+    kani::cover!(!pooled, "COVER pooling a live slot twice");
+    core::mem::forget(space);
+}
+
+// Space::alloc_internal, reuse path: a pooled slot comes back reset (default payload), with one handle,
+// not pooled, and leaves the free list; no other slot is touched.
+#[cfg_attr(kani, kani::proof)]
+#[cfg_attr(kani, kani::unwind(4))]
+fn space_alloc_reuses_pooled_slot_reset() {
+    let mut space: Space<Obj> = Space::new();
+    space.gc_threshold = 0; // no automatic collection inside this harness
+    let stale_payload: u32 = kani::any();
+    let ptr = live_box(true, kani::any(), stale_payload);
+    space.free_list.push(ptr);
+    let g = space.alloc_internal();
+    assert!(g.ptr == ptr, "OBL gc_handles/Space::alloc_internal/ensures#reuses_the_pooled_slot");
+    assert!(space.free_list.len() == 0, "OBL gc_handles/Space::alloc_internal/ensures#slot_leaves_free_list");
+    assert!(unsafe { ptr.as_ref().data.borrow().v } == 0, "OBL gc_handles/Space::alloc_internal/ensures#reused_slot_is_reset");
+    assert!(unsafe { ptr.as_ref().ref_count.get() } == 1 && !unsafe { ptr.as_ref().pooled.get() },
+            "OBL gc_handles/Space::alloc_internal/ensures#one_handle_not_pooled");
+    assert!(space.chunks.len() == 0, "OBL gc_handles/Space::alloc_internal/ensures#no_new_chunk_when_reusing");
+    kani::cover!(stale_payload == 99, "COVER reuse of a slot with stale contents");
+    core::mem::forget(g);
+    core::mem::forget(space);
+}
+
 // Guard::unguard / len / clear on the root list (a multiset: the VM guards the same object several times
 // and expects one unguard to remove exactly one occurrence).  The list never dereferences its entries, so
 // the entries are pointers to freed boxes.  BOUNDED: one harness per root-list length N.
@@ -166,6 +218,8 @@ fn verif_replay_gc_handles() {
         ("handle_clone_after_heap_drop", handle_clone_after_heap_drop as fn()),
         ("guard_ops_after_heap_drop", guard_ops_after_heap_drop as fn()),
         ("guard_live_heap_respects_pooled", guard_live_heap_respects_pooled as fn()),
+        ("space_pool_object_once", space_pool_object_once as fn()),
+        ("space_alloc_reuses_pooled_slot_reset", space_alloc_reuses_pooled_slot_reset as fn()),
         ("guard_unguard_roots0", guard_unguard_roots0 as fn()),
         ("guard_unguard_roots1", guard_unguard_roots1 as fn()),
         ("guard_unguard_roots2", guard_unguard_roots2 as fn()),
